@@ -49,21 +49,51 @@ Qed.
 Lemma pairs_up_flat items l : pairs_up items = Some l -> items = flat l.
 Proof. apply (pairs_up_flat_n (length items) items (le_n _)). Qed.
 
+Lemma byte_eqb_sym a b : byte_eqb a b = byte_eqb b a.
+Proof.
+  destruct (byte_eqb a b) eqn:E1, (byte_eqb b a) eqn:E2; try reflexivity.
+  - apply byte_eqb_eq in E1. subst. rewrite byte_eqb_refl in E2. discriminate.
+  - apply byte_eqb_eq in E2. subst. rewrite byte_eqb_refl in E1. discriminate.
+Qed.
+
+(* a string without double quote, '=' and ',' goes through the scanner unchanged *)
+Lemma plain_scan s : has QUOTE s = false -> has EQ s = false -> has COMMA s = false -> scan s false = Some false.
+Proof.
+  induction s as [|c tl IH]; intros H1 H2 H3; [reflexivity|].
+  unfold has in *. cbn [existsb] in *.
+  apply orb_false_iff in H1 as [A1 B1]. apply orb_false_iff in H2 as [A2 B2]. apply orb_false_iff in H3 as [A3 B3].
+  cbn [scan]. rewrite (byte_eqb_sym c QUOTE), A1, (byte_eqb_sym c EQ), A2, (byte_eqb_sym c COMMA), A3.
+  rewrite andb_false_r. cbn [orb andb]. exact (IH B1 B2 B3).
+Qed.
+Lemma plain_neutral s : has QUOTE s = false -> has EQ s = false -> has COMMA s = false -> neutral s = true.
+Proof. intros H1 H2 H3. unfold neutral. rewrite (plain_scan s H1 H2 H3). reflexivity. Qed.
+
+Lemma enc_fields_nil (l : list (bytes * bytes)) : is_nil (enc_fields (flat l)) = is_nil l.
+Proof. destruct l as [|[k v] tl]; reflexivity. Qed.
+
+Definition pair_le255 (kv : bytes * bytes) : Prop := length (fst kv) <= 255 /\ length (snd kv) <= 255.
+
 Section Law.
   Variable quote : bytes -> bytes.
   Variable unquote : bytes -> option bytes.
 
-  Definition fr (kv : bytes * bytes) : bytes * bytes := (fst kv, fld_val quote (snd kv)).
+  (* the text AsKVString prints for the pairs l: first name and last value are the edges of the text *)
+  Fixpoint frender (first : bool) (l : list (bytes * bytes)) : list (bytes * bytes) :=
+    match l with
+    | [] => []
+    | (k, v) :: tl => (fld_item quote true first k, fld_item quote false (is_nil tl) v) :: frender false tl
+    end.
 
   (* ---------- AsKVString over an encoded list ---------- *)
   Lemma as_kv_item fuel x rest even first : length x <= 255 ->
     as_kv_go quote (S fuel) (enc_item x ++ rest) even first =
     match as_kv_go quote fuel rest (negb even) false with
-    | Ok r => Ok ((if even then (if first then [] else [COMMA]) ++ x ++ [EQ] else fld_val quote x) ++ r)
+    | Ok r => Ok ((if even then (if first then [] else [COMMA]) ++ fld_item quote true first x ++ [EQ]
+                   else fld_item quote false (is_nil rest) x) ++ r)
     | o => o
     end.
   Proof.
-    intros H. unfold enc_item. cbn [app as_kv_go]. rewrite (len_byte_small x H).
+    intros H. unfold as_kv_go, enc_item. cbn [app as_kv_go_v]. rewrite (len_byte_small x H).
     destruct (Nat.ltb_spec (length (x ++ rest)) (length x)) as [Hlt|Hge]; [rewrite app_length in Hlt; lia|].
     rewrite firstn_app, Nat.sub_diag, firstn_all. cbn [firstn]. rewrite app_nil_r.
     rewrite skipn_app, Nat.sub_diag, skipn_all. reflexivity.
@@ -72,11 +102,12 @@ Section Law.
   Fixpoint kv_body (l : list (bytes * bytes)) (first : bool) : bytes :=
     match l with
     | [] => []
-    | (k, v) :: tl => (if first then [] else [COMMA]) ++ k ++ [EQ] ++ fld_val quote v ++ kv_body tl false
+    | (k, v) :: tl => (if first then [] else [COMMA]) ++ fld_item quote true first k ++ [EQ] ++
+                      fld_item quote false (is_nil tl) v ++ kv_body tl false
     end.
 
   Lemma as_kv_go_pairs : forall l fuel first,
-    length (enc_fields (flat l)) <= fuel -> Forall (fun kv => length (fst kv) <= 255 /\ length (snd kv) <= 255) l ->
+    length (enc_fields (flat l)) <= fuel -> Forall pair_le255 l ->
     as_kv_go quote fuel (enc_fields (flat l)) true first = Ok (kv_body l first).
   Proof.
     induction l as [|[k v] tl IH]; intros fuel first Hf Hall.
@@ -86,194 +117,229 @@ Section Law.
       rewrite !app_length in Hf. unfold enc_item in Hf at 1 2. cbn [length] in Hf.
       destruct fuel as [|fuel]; [lia|]. rewrite (as_kv_item fuel k _ true first Hk).
       destruct fuel as [|fuel]; [lia|]. cbn [negb]. rewrite (as_kv_item fuel v _ false false Hv).
-      cbn [negb]. rewrite (IH fuel false ltac:(lia) Hall'). cbn [kv_body]. rewrite <- !app_assoc. reflexivity.
+      cbn [negb]. rewrite (IH fuel false ltac:(lia) Hall'). rewrite enc_fields_nil.
+      cbn [kv_body]. rewrite <- !app_assoc. reflexivity.
   Qed.
 
   Definition sepjoin (l : list (bytes * bytes)) : bytes := match l with [] => [] | _ => COMMA :: join_pairs l end.
   Lemma join_cons k r tl : join_pairs ((k, r) :: tl) = k ++ EQ :: r ++ sepjoin tl.
   Proof. destruct tl; [cbn [join_pairs sepjoin]; rewrite app_nil_r|]; reflexivity. Qed.
 
-  Lemma kv_body_sep l : kv_body l false = sepjoin (map fr l).
+  Lemma kv_body_sep l : kv_body l false = sepjoin (frender false l).
   Proof.
-    induction l as [|[k v] tl IH]; [reflexivity|]. cbn [kv_body]. rewrite IH.
-    change (map fr ((k, v) :: tl)) with ((k, fld_val quote v) :: map fr tl).
+    induction l as [|[k v] tl IH]; [reflexivity|]. cbn [kv_body frender]. rewrite IH.
     unfold sepjoin at 2. rewrite join_cons. cbn [app]. reflexivity.
   Qed.
 
-  Lemma kv_body_join l : kv_body l true = join_pairs (map fr l).
+  Lemma kv_body_join l : kv_body l true = join_pairs (frender true l).
   Proof.
-    destruct l as [|[k v] tl]; [reflexivity|]. cbn [kv_body]. rewrite kv_body_sep.
-    change (map fr ((k, v) :: tl)) with ((k, fld_val quote v) :: map fr tl).
+    destruct l as [|[k v] tl]; [reflexivity|]. cbn [kv_body frender]. rewrite kv_body_sep.
     rewrite join_cons. cbn [app]. reflexivity.
   Qed.
 
-  Lemma as_kv_pairs l : Forall (fun kv => length (fst kv) <= 255 /\ length (snd kv) <= 255) l ->
-    as_kv quote (enc_fields (flat l)) = Ok (join_pairs (map fr l)).
-  Proof. intros H. unfold as_kv. rewrite (as_kv_go_pairs l _ true (le_n _) H). rewrite kv_body_join. reflexivity. Qed.
-
-  (* ---------- NewFieldsFromKVString over the rendered pieces ---------- *)
-  Definition fpiece_ok (rv : bytes -> bytes) (kv : bytes * bytes) : Prop :=
-    let r := rv (snd kv) in
-    fst kv <> [] /\ length (fst kv) <= 255 /\ trim (fst kv) = fst kv /\ unq unquote (fst kv) = Ok (fst kv) /\
-    length r <= 255 /\ trim r = r /\ unq unquote r = Ok (snd kv).
-
-  Lemma fld_items_flat rv l : Forall (fpiece_ok rv) l ->
-    fld_items unquote (flat (map (fun kv => (fst kv, rv (snd kv))) l)) true = Ok (enc_fields (flat l)).
+  Lemma as_kv_pairs l : Forall pair_le255 l -> as_kv quote (enc_fields (flat l)) = Ok (join_pairs (frender true l)).
   Proof.
-    induction 1 as [|[k v] tl (H1 & H2 & H3 & H4 & H5 & H6 & H7) Hall IH]; [reflexivity|].
-    cbn [fst snd] in *. cbn [map fst snd flat fld_items].
-    destruct (Nat.ltb_spec 255 (length k)) as [Hlt|_]; [lia|]. rewrite H3.
-    destruct k as [|a k']; [congruence|]. cbn [is_nil andb]. rewrite H4. cbn [negb].
-    destruct (Nat.ltb_spec 255 (length (rv v))) as [Hlt|_]; [lia|]. rewrite H6, andb_false_r, H7.
+    intros H. unfold as_kv, as_kv_v. fold (as_kv_go quote).
+    rewrite (as_kv_go_pairs l _ true (le_n _) H). rewrite kv_body_join. reflexivity.
+  Qed.
+
+  (* ---------- NewFieldsFromKVString over rendered pieces ---------- *)
+  (* r is a rendering of the stored string x: TrimSpaces leaves it alone, Unquote (if it applies) gives x, x fits *)
+  Definition item_ok (x r : bytes) : Prop := trim r = r /\ unq unquote r = Ok x /\ length x <= 255.
+  Definition frendered (kv rr : bytes * bytes) : Prop :=
+    fst rr <> [] /\ item_ok (fst kv) (fst rr) /\ item_ok (snd kv) (snd rr).
+
+  Lemma fld_items_flat l rl : Forall2 frendered l rl ->
+    fld_items unquote (flat rl) true = Ok (enc_fields (flat l)).
+  Proof.
+    induction 1 as [|[k v] [kr vr] l' rl' (H1 & (H2 & H3 & H4) & (H5 & H6 & H7)) Hall IH]; [reflexivity|].
+    cbn [fst snd] in *. unfold fld_items, code_fields_limit_stored in *. cbn [flat fld_items_v negb andb].
+    rewrite H2. destruct kr as [|a kr']; [congruence|]. cbn [is_nil andb]. rewrite H3.
+    destruct (Nat.ltb_spec 255 (length k)) as [Hlt|_]; [lia|].
+    rewrite H5, andb_false_r, H6.
+    destruct (Nat.ltb_spec 255 (length v)) as [Hlt|_]; [lia|].
     cbn [negb]. rewrite IH. unfold enc_fields. cbn [map concat]. rewrite <- ?app_assoc. reflexivity.
   Qed.
 
   Lemma flat_length_even (l : list (bytes * bytes)) : Nat.odd (length (flat l)) = false.
   Proof. induction l as [|[k v] tl IH]; [reflexivity|]. cbn [flat length]. rewrite Nat.odd_succ_succ. exact IH. Qed.
 
-  Hypothesis QS : QuoteSpec quote unquote.
-
-  Lemma fld_val_ok v : fvalue_safe quote v = true ->
-    let r := fld_val quote v in
-    length v <= 255 /\ neutral r = true /\ trimmed r = true /\ length r <= 255 /\ unq unquote r = Ok v /\
-    (fld_needs_quote v = true -> last_is RBR r = false /\ r <> []).
+  (* ---------- whatever NewFieldsFromKVString accepts is the binary form of pairs of strings of at most 255 bytes ---------- *)
+  Lemma fld_items_wf_n : forall n pcs, length pcs <= n -> Nat.odd (length pcs) = false ->
+    forall f, fld_items unquote pcs true = Ok f -> exists l, f = enc_fields (flat l) /\ Forall pair_le255 l.
   Proof.
-    unfold fvalue_safe, fld_val. intros H. apply andb_true_iff in H as [Hv H]. apply Nat.leb_le in Hv.
-    destruct (fld_needs_quote v) eqn:Q.
-    - destruct (quote_facts quote unquote QS v) as (F & L & Hl & N & _).
-      repeat split.
-      + exact Hv.
-      + exact N.
-      + unfold trimmed. rewrite (first_is_excl QUOTE SP _ ltac:(discriminate) F). unfold last_is in *.
-        rewrite (first_is_excl QUOTE SP _ ltac:(discriminate) L). reflexivity.
-      + apply Nat.leb_le. exact H.
-      + apply (quote_unq quote unquote QS).
-      + unfold last_is in *. exact (first_is_excl QUOTE RBR _ ltac:(discriminate) L).
-      + intros E. rewrite E in Hl. cbn in Hl. lia.
-    - unfold raw_value_ok in H. apply andb_true_iff in H as [H Hq].
-      apply andb_true_iff in H as [Ht Hn]. repeat split; try assumption.
-      + unfold unq. apply negb_true_iff in Hq. rewrite Hq. reflexivity.
+    induction n as [|n IH]; intros pcs Hn Hodd f H.
+    - destruct pcs; [|cbn in Hn; lia]. cbn in H. injection H as <-. exists []. split; [reflexivity|constructor].
+    - destruct pcs as [|p [|q tl]].
+      + cbn in H. injection H as <-. exists []. split; [reflexivity|constructor].
       + discriminate.
-      + discriminate.
+      + cbn [length] in Hn, Hodd. rewrite Nat.odd_succ_succ in Hodd.
+        unfold fld_items, code_fields_limit_stored in *. cbn [fld_items_v negb andb] in H.
+        destruct (is_nil (trim p) && true); [discriminate|].
+        destruct (unq unquote (trim p)) as [k| | |]; try discriminate.
+        destruct (Nat.ltb_spec 255 (length k)) as [_|Hk]; [discriminate|].
+        rewrite andb_false_r in H.
+        destruct (unq unquote (trim q)) as [v| | |]; try discriminate.
+        destruct (Nat.ltb_spec 255 (length v)) as [_|Hv]; [discriminate|].
+        destruct (fld_items_v true unquote tl true) as [r| | |] eqn:Er; try discriminate.
+        injection H as <-. destruct (IH tl ltac:(lia) Hodd r Er) as (l & -> & Hl).
+        exists ((k, v) :: l). split.
+        * unfold enc_fields. cbn [flat map concat]. rewrite <- ?app_assoc. reflexivity.
+        * constructor; [split; assumption|exact Hl].
   Qed.
 
-  (* ---------- C08 (fields): print then parse is the identity on safe field lists ---------- *)
-  Theorem fields_roundtrip_pairs l : fpairs_safe quote l = true ->
-    as_kv quote (enc_fields (flat l)) = Ok (join_pairs (map fr l)) /\
-    fields_of_kv unquote (join_pairs (map fr l)) = Ok (enc_fields (flat l)).
+  Theorem fields_accepted_wf s f : fields_of_kv unquote s = Ok f ->
+    exists l, f = enc_fields (flat l) /\ Forall pair_le255 l.
   Proof.
-    intros Hsafe. unfold fpairs_safe in Hsafe. apply andb_true_iff in Hsafe as [Hall Hedge].
-    rewrite forallb_forall in Hall.
-    assert (Hpairs : forall kv, In kv l -> fname_ok (fst kv) = true /\ fvalue_safe quote (snd kv) = true).
-    { intros kv I. specialize (Hall _ I). unfold fpair_safe in Hall. apply andb_true_iff in Hall. exact Hall. }
-    assert (Hname : forall k, fname_ok k = true ->
-              k <> [] /\ trimmed k = true /\ neutral k = true /\ starts_quoted k = false /\ length k <= 255).
-    { intros k H. unfold fname_ok in H. apply andb_true_iff in H as [H H5]. apply andb_true_iff in H as [H H4].
-      unfold name_ok in H. apply andb_true_iff in H as [H H3]. apply andb_true_iff in H as [H1 H2].
-      repeat split; try assumption.
-      - destruct k; [discriminate|discriminate].
-      - apply negb_true_iff. exact H4.
-      - apply Nat.leb_le. exact H5. }
-    split.
-    { apply as_kv_pairs. rewrite Forall_forall. intros kv I. destruct (Hpairs _ I) as (Hn & Hv).
-      destruct (Hname _ Hn) as (_ & _ & _ & _ & Hk). split; [exact Hk|].
-      destruct (fld_val_ok _ Hv) as (H & _). exact H. }
+    unfold fields_of_kv, fields_of_kv_v. fold (fld_items unquote). intros H.
+    destruct (remove_curly s) as [fine| | |]; try discriminate.
+    destruct fine as [|c0 f0]; [injection H as <-; exists []; split; [reflexivity|constructor]|].
+    destruct (split_string (c0 :: f0)) as [pcs| | |]; try discriminate.
+    destruct (Nat.odd (length pcs)) eqn:Eo; [discriminate|].
+    exact (fld_items_wf_n (length pcs) pcs (le_n _) Eo f H).
+  Qed.
+
+  Hypothesis QS : QuoteSpec quote unquote.
+
+  (* ---------- one rendered name or value ---------- *)
+  Lemma fld_item_ok name edge x : length x <= 255 ->
+    let r := fld_item quote name edge x in
+    neutral r = true /\ item_ok x r /\ (name = true -> r <> [] /\ first_is SP r = false) /\
+    (edge = true -> if name then first_is LBR r = false
+                    else last_is SP (EQ :: r) = false /\ last_is RBR (EQ :: r) = false).
+  Proof.
+    intros Hx. unfold fld_item, fld_item_v, fld_needs_quote_v, code_fields_quote.
+    destruct (kv_needs_quote name edge x) eqn:Q; cbn zeta.
+    - destruct (quote_facts quote unquote QS x) as (F & L & Hl & N & _).
+      assert (Qne : quote x <> []) by (intros E; rewrite E in Hl; cbn in Hl; lia).
+      split; [exact N|]. split; [|split].
+      + split; [apply (quote_trimmed quote unquote QS)|]. split; [apply (quote_unq quote unquote QS)|exact Hx].
+      + intros _. split; [exact Qne|]. exact (first_is_excl QUOTE SP _ ltac:(discriminate) F).
+      + intros _. destruct name.
+        * exact (first_is_excl QUOTE LBR _ ltac:(discriminate) F).
+        * split; rewrite last_is_cons by exact Qne; unfold last_is in *;
+            [exact (first_is_excl QUOTE SP _ ltac:(discriminate) L)|exact (first_is_excl QUOTE RBR _ ltac:(discriminate) L)].
+    - destruct x as [|c x'].
+      + cbn in Q. subst name. split; [reflexivity|]. split; [|split].
+        * split; [reflexivity|]. split; [reflexivity|exact Hx].
+        * discriminate.
+        * intros _. split; reflexivity.
+      + unfold kv_needs_quote in Q.
+        apply orb_false_iff in Q as [Q Q7]. apply orb_false_iff in Q as [Q Q6]. apply orb_false_iff in Q as [Q Q5].
+        apply orb_false_iff in Q as [Q Q4]. apply orb_false_iff in Q as [Q Q3]. apply orb_false_iff in Q as [Q1 Q2].
+        assert (T : trimmed (c :: x') = true) by (unfold trimmed; rewrite Q4, Q5; reflexivity).
+        split; [exact (plain_neutral _ Q3 Q2 Q1)|]. split; [|split].
+        * split; [apply trim_id; exact T|]. split; [|exact Hx].
+          unfold unq, starts_quoted. cbn [first_is] in Q6. rewrite Q6.
+          unfold has in Q3. cbn [existsb] in Q3. apply orb_false_iff in Q3 as [Q3 _].
+          rewrite (byte_eqb_sym c QUOTE), Q3. reflexivity.
+        * intros _. split; [discriminate|exact Q4].
+        * intros ->. cbn [andb] in Q7. destruct name; [exact Q7|].
+          split; rewrite last_is_cons by discriminate; [exact Q5|exact Q7].
+  Qed.
+
+  Lemma frender_pieces first l : Forall pair_le255 l ->
+    Forall rpiece_ok (frender first l) /\ Forall2 frendered l (frender first l).
+  Proof.
+    revert first. induction l as [|[k v] tl IH]; intros first H; [split; constructor|].
+    inversion H as [|? ? [Hk Hv] H']; subst. cbn [fst snd] in Hk, Hv. destruct (IH false H') as (I1 & I2).
+    destruct (fld_item_ok true first k Hk) as (N1 & O1 & E1 & _). destruct (E1 eq_refl) as (Ne & _).
+    destruct (fld_item_ok false (is_nil tl) v Hv) as (N2 & O2 & _).
+    cbn [frender]. split; constructor; try assumption.
+    - unfold rpiece_ok. cbn [fst snd]. split; [exact Ne|split; [exact N1|exact N2]].
+    - unfold frendered. cbn [fst snd]. split; [exact Ne|split; [exact O1|exact O2]].
+  Qed.
+
+  Lemma frender_last : forall l first k v,
+    exists rl' kr, frender first (l ++ [(k, v)]) = rl' ++ [(kr, fld_item quote false true v)].
+  Proof.
+    induction l as [|[a b] l IH]; intros first k v.
+    - exists [], (fld_item quote true first k). reflexivity.
+    - destruct (IH false k v) as (rl' & kr & E). cbn [app frender]. rewrite E.
+      eexists (_ :: rl'), kr. reflexivity.
+  Qed.
+
+  (* ---------- C08 (fields): print then parse is the identity on every list of pairs of strings that fit ---------- *)
+  Theorem fields_roundtrip_pairs l : Forall pair_le255 l ->
+    as_kv quote (enc_fields (flat l)) = Ok (join_pairs (frender true l)) /\
+    fields_of_kv unquote (join_pairs (frender true l)) = Ok (enc_fields (flat l)).
+  Proof.
+    intros Hall. split; [exact (as_kv_pairs l Hall)|].
     destruct l as [|[k1 v1] tl] eqn:El; [reflexivity|]. rewrite <- El in *.
     destruct (exists_last (l := l)) as (l' & [kl vl] & El2); [rewrite El; discriminate|].
-    assert (I1 : In (k1, v1) l) by (rewrite El; left; reflexivity).
-    assert (Il : In (kl, vl) l) by (rewrite El2; apply in_or_app; right; left; reflexivity).
-    destruct (Hpairs _ I1) as (Hn1 & _). destruct (Hname _ Hn1) as (_ & Ht1 & _). cbn [fst] in *.
-    destruct (Hpairs _ Il) as (_ & Hvl). cbn [snd] in Hvl.
-    rewrite El in Hedge. cbn [fld_edges_ok] in Hedge. rewrite <- El in Hedge. rewrite El2 in Hedge. rewrite last_last in Hedge.
-    cbn [snd] in Hedge. apply andb_true_iff in Hedge as [He1 He2]. apply negb_true_iff in He1.
-    destruct (fld_val_ok vl Hvl) as (_ & _ & Htl & _ & _ & Hql).
-    destruct (pieces_join (map fr l) k1 (fld_val quote v1) (map fr tl) (map fr l') (fr (kl, vl))) as (Hrc & Hsp & Hne).
+    destruct (frender_pieces true l Hall) as (Hrp & Hr2).
+    assert (Hk1 : length k1 <= 255).
+    { rewrite El in Hall. inversion Hall as [|? ? [H _] _]; subst. exact H. }
+    assert (Hvl : length vl <= 255).
+    { rewrite El2 in Hall. apply Forall_app in Hall as [_ Hall]. inversion Hall as [|? ? [_ H] _]; subst. exact H. }
+    destruct (fld_item_ok true true k1 Hk1) as (_ & _ & E1 & E2). destruct (E1 eq_refl) as (_ & Hsp). specialize (E2 eq_refl).
+    destruct (fld_item_ok false true vl Hvl) as (_ & _ & _ & E3). destruct (E3 eq_refl) as (Hlsp & Hlrbr).
+    destruct (frender_last l' true kl vl) as (rl' & kr & Erl). rewrite <- El2 in Erl.
+    destruct (pieces_join (frender true l) (fld_item quote true true k1) (fld_item quote false (is_nil tl) v1)
+                (frender false tl) rl' (kr, fld_item quote false true vl)) as (Hrc & Hsplit & Hne).
     - rewrite El. reflexivity.
-    - rewrite El2, map_app. reflexivity.
-    - rewrite Forall_forall. intros kv I. apply in_map_iff in I as (kv0 & <- & I0).
-      destruct (Hpairs _ I0) as (Hn & Hv). destruct (Hname _ Hn) as (H1 & _ & H3 & _).
-      destruct (fld_val_ok _ Hv) as (_ & H4 & _). unfold rpiece_ok, fr. cbn [fst snd]. repeat split; assumption.
-    - apply (trimmed_ends _ Ht1).
-    - exact He1.
-    - unfold fr. cbn [fst snd]. destruct (fld_val quote vl) as [|c0 r0] eqn:Er; [reflexivity|].
-      rewrite last_is_cons by discriminate. apply (trimmed_ends _ Htl).
-    - unfold fr. cbn [fst snd]. destruct (fld_val quote vl) as [|c0 r0] eqn:Er; [reflexivity|].
-      rewrite last_is_cons by discriminate.
-      destruct (fld_needs_quote vl) eqn:Q; [apply (Hql eq_refl)|].
-      cbn [orb] in He2. apply negb_true_iff in He2. unfold fld_val in Er. rewrite Q in Er. rewrite <- Er. exact He2.
-    - unfold fields_of_kv. rewrite Hrc.
-      destruct (join_pairs (map fr l)) as [|c0 r0] eqn:Ej; [congruence|]. rewrite Hsp.
-      rewrite flat_length_even. apply (fld_items_flat (fld_val quote)).
-      rewrite Forall_forall. intros kv I. destruct (Hpairs _ I) as (Hn & Hv).
-      destruct (Hname _ Hn) as (H1 & H2 & _ & H4 & H5). destruct (fld_val_ok _ Hv) as (_ & _ & H7 & H8 & H9 & _).
-      unfold fpiece_ok. cbn zeta. repeat split; try assumption.
-      + apply trim_id. exact H2.
-      + unfold unq. rewrite H4. reflexivity.
-      + apply trim_id. exact H7.
+    - exact Erl.
+    - exact Hrp.
+    - exact Hsp.
+    - exact E2.
+    - exact Hlsp.
+    - exact Hlrbr.
+    - unfold fields_of_kv, fields_of_kv_v. fold (fld_items unquote). rewrite Hrc.
+      destruct (join_pairs (frender true l)) as [|c0 r0] eqn:Ej; [congruence|]. rewrite Hsplit.
+      rewrite flat_length_even. exact (fld_items_flat l (frender true l) Hr2).
+  Qed.
+
+  Theorem fields_roundtrip f : fields_wf f = true ->
+    exists t, as_kv quote f = Ok t /\ fields_of_kv unquote t = Ok f.
+  Proof.
+    unfold fields_wf, dec_fields. intros H.
+    destruct (dec_fields_go (length f) f) as [items|] eqn:Ed; [|discriminate].
+    destruct (pairs_up items) as [l|] eqn:Ep; [|discriminate].
+    destruct (dec_fields_go_enc _ _ _ Ed) as (E & F). rewrite (pairs_up_flat _ _ Ep) in E, F. subst f.
+    assert (Hall : Forall pair_le255 l).
+    { clear -F. induction l as [|[k v] tl IH]; [constructor|]. cbn [flat] in F.
+      inversion F as [|? ? Hk F']; subst. inversion F' as [|? ? Hv F'']; subst.
+      constructor; [split; assumption|exact (IH F'')]. }
+    destruct (fields_roundtrip_pairs l Hall) as (H1 & H2). eexists. split; [exact H1|exact H2].
+  Qed.
+
+  (* the full statement: whatever text was accepted, the text printed for its list is accepted and denotes it *)
+  Theorem fields_law s f : fields_of_kv unquote s = Ok f ->
+    exists t, as_kv quote f = Ok t /\ fields_of_kv unquote t = Ok f.
+  Proof.
+    intros H. destruct (fields_accepted_wf s f H) as (l & -> & Hall).
+    destruct (fields_roundtrip_pairs l Hall) as (H1 & H2). eexists. split; [exact H1|exact H2].
   Qed.
 
   (* ---------- the pipe worker: field.Parse of a source tag line ---------- *)
   Definition prov_pair_ok (kv : bytes * bytes) : bool :=
-    negb (starts_quoted (fst kv)) && le255 (fst kv) && le255 (tag_val quote (snd kv)).
+    negb (starts_quoted (fst kv)) && le255 (fst kv) && le255 (snd kv).
+
+  Lemma render_frendered m : tag_pairs_safe m = true -> forallb prov_pair_ok m = true ->
+    Forall2 frendered m (render quote m).
+  Proof.
+    induction m as [|[k v] tl IH]; intros H P; [constructor|].
+    cbn [tag_pairs_safe] in H. apply andb_true_iff in H as [H Htl]. apply andb_true_iff in H as [Hn Hv].
+    cbn [forallb] in P. apply andb_true_iff in P as [P Ptl]. unfold prov_pair_ok in P. cbn [fst snd] in P.
+    apply andb_true_iff in P as [P P3]. apply andb_true_iff in P as [P1 P2].
+    apply negb_true_iff in P1. apply Nat.leb_le in P2. apply Nat.leb_le in P3.
+    destruct (name_facts k Hn) as (N1 & N2 & N3).
+    destruct (tag_val_ok quote unquote QS (is_nil tl) v Hv) as (V1 & V2 & V3 & _).
+    unfold render in *. cbn [render_v]. fold (tag_val quote (is_nil tl) v). constructor; [|exact (IH Htl Ptl)].
+    unfold frendered, item_ok. cbn [fst snd]. repeat split; try assumption.
+    - apply trim_id. exact N2.
+    - unfold unq. rewrite P1. reflexivity.
+  Qed.
 
   Theorem provenance m : keys_sorted m = true -> tag_safe m = true -> forallb prov_pair_ok m = true ->
     fields_of_kv unquote (line quote m) = Ok (enc_fields (flat m)).
   Proof.
-    intros Hs Hsafe Hprov. rewrite (line_print quote m Hs). unfold tag_safe in Hsafe.
-    apply andb_true_iff in Hsafe as [Hall Hedge]. rewrite forallb_forall in Hall, Hprov.
-    destruct m as [|[k1 v1] tl] eqn:Em; [reflexivity|]. rewrite <- Em in *.
-    destruct (exists_last (l := m)) as (m' & [kl vl] & Em2); [rewrite Em; discriminate|].
-    set (f := fun kv : bytes * bytes => (fst kv, tag_val quote (snd kv))).
-    assert (Hpairs : forall kv, In kv m -> name_ok (fst kv) = true /\ tag_value_safe (snd kv) = true).
-    { intros kv I. specialize (Hall _ I). unfold tag_pair_safe in Hall. apply andb_true_iff in Hall. exact Hall. }
-    assert (Hname : forall k, name_ok k = true -> k <> [] /\ trimmed k = true /\ neutral k = true).
-    { intros k H. unfold name_ok in H. apply andb_true_iff in H as [H H3]. apply andb_true_iff in H as [H1 H2].
-      repeat split; try assumption. destruct k; [discriminate|discriminate]. }
-    assert (I1 : In (k1, v1) m) by (rewrite Em; left; reflexivity).
-    assert (Il : In (kl, vl) m) by (rewrite Em2; apply in_or_app; right; left; reflexivity).
-    destruct (Hpairs _ I1) as (Hn1 & _). destruct (Hname _ Hn1) as (_ & Ht1 & _). cbn [fst] in *.
-    destruct (Hpairs _ Il) as (_ & Hvl). cbn [snd] in Hvl.
-    rewrite Em in Hedge. cbn [tag_edges_ok] in Hedge. rewrite <- Em in Hedge. rewrite Em2 in Hedge. rewrite last_last in Hedge.
-    cbn [snd] in Hedge. apply andb_true_iff in Hedge as [He1 He2]. apply negb_true_iff in He1.
-    destruct (tag_val_ok quote unquote QS vl Hvl) as (_ & Htl & _ & Hnel).
-    assert (T : forall v, tag_value_safe v = true -> trimmed (tag_val quote v) = true).
-    { intros v Hv. unfold tag_value_safe in Hv. unfold tag_val. destruct (tag_needs_quote v) eqn:Q.
-      - destruct (quote_facts quote unquote QS v) as (F & L & _). unfold trimmed.
-        rewrite (first_is_excl QUOTE SP _ ltac:(discriminate) F). unfold last_is in *.
-        rewrite (first_is_excl QUOTE SP _ ltac:(discriminate) L). reflexivity.
-      - cbn [orb] in Hv. unfold raw_value_ok in Hv. apply andb_true_iff in Hv as [Hv _].
-        apply andb_true_iff in Hv as [Hv _]. exact Hv. }
-    destruct (pieces_join (map f m) k1 (tag_val quote v1) (map f tl) (map f m') (f (kl, vl))) as (Hrc & Hsp & Hne).
-    - rewrite Em. reflexivity.
-    - rewrite Em2, map_app. reflexivity.
-    - rewrite Forall_forall. intros kv I. apply in_map_iff in I as (kv0 & <- & I0).
-      destruct (Hpairs _ I0) as (Hn & Hv). destruct (Hname _ Hn) as (H1 & _ & H3).
-      destruct (tag_val_ok quote unquote QS _ Hv) as (H4 & _). unfold rpiece_ok, f. cbn [fst snd]. repeat split; assumption.
-    - apply (trimmed_ends _ Ht1).
-    - exact He1.
-    - unfold f. cbn [fst snd]. rewrite last_is_cons by exact Hnel. apply (trimmed_ends _ (T _ Hvl)).
-    - unfold f. cbn [fst snd]. rewrite last_is_cons by exact Hnel.
-      destruct (tag_needs_quote vl) eqn:Q; [apply (tag_val_last_rbr quote unquote QS); exact Q|].
-      cbn [orb] in He2. apply negb_true_iff in He2. unfold tag_val. rewrite Q. exact He2.
-    - unfold fields_of_kv, print_tags. fold f. rewrite Hrc.
-      destruct (join_pairs (map f m)) as [|c0 r0] eqn:Ej; [congruence|]. rewrite Hsp.
-      rewrite flat_length_even. unfold f. apply (fld_items_flat (tag_val quote)).
-      rewrite Forall_forall. intros kv I. destruct (Hpairs _ I) as (Hn & Hv). destruct (Hname _ Hn) as (H1 & H2 & _).
-      destruct (tag_val_ok quote unquote QS _ Hv) as (_ & H5 & H6 & _).
-      specialize (Hprov _ I). unfold prov_pair_ok in Hprov. apply andb_true_iff in Hprov as [Hp P3].
-      apply andb_true_iff in Hp as [P1 P2]. apply negb_true_iff in P1. apply Nat.leb_le in P2. apply Nat.leb_le in P3.
-      unfold fpiece_ok. cbn zeta. repeat split; try assumption.
-      + apply trim_id. exact H2.
-      + unfold unq. rewrite P1. reflexivity.
-  Qed.
-
-  Theorem fields_roundtrip f : fields_safe quote f = true ->
-    exists t, as_kv quote f = Ok t /\ fields_of_kv unquote t = Ok f.
-  Proof.
-    unfold fields_safe, dec_fields. intros H.
-    destruct (dec_fields_go (length f) f) as [items|] eqn:Ed; [|discriminate].
-    destruct (pairs_up items) as [l|] eqn:Ep; [|discriminate].
-    destruct (dec_fields_go_enc _ _ _ Ed) as (E & _). rewrite (pairs_up_flat _ _ Ep) in E. subst f.
-    destruct (fields_roundtrip_pairs l H) as (H1 & H2). eexists. split; [exact H1|exact H2].
+    intros Hs Hsafe Hprov. rewrite (line_print quote m Hs).
+    destruct m as [|kv1 tl] eqn:Em; [reflexivity|]. rewrite <- Em in *.
+    destruct (line_pieces quote unquote QS m Hsafe ltac:(rewrite Em; discriminate)) as (Hrc & Hsp & Hne).
+    unfold tag_safe in Hsafe. apply andb_true_iff in Hsafe as [Hall _].
+    unfold fields_of_kv, fields_of_kv_v. fold (fld_items unquote). rewrite Hrc.
+    destruct (print_tags quote m) as [|c0 r0] eqn:Ej; [congruence|]. rewrite Hsp.
+    rewrite flat_length_even. exact (fld_items_flat m (render quote m) (render_frendered m Hall Hprov)).
   Qed.
 End Law.
